@@ -8,7 +8,11 @@ A *frame spec* is a JSON-able dict from which the real GeoDataFrame, the model's
    'geom': <name of the geometry column>, 'gpos': <its position among the columns>,
    'cols': [<names of the payload columns>],      # values are derived from the row position
    'id': 'lid' | 'rid',                           # unique row id column (value = position)
-   'index': ['range'] | ['plain', name|None, [labels]] | ['multi', [names], [[l0, l1, ..], ...]]}
+   'index': ['range'] | ['plain', name|None, [labels]] | ['multi', [names], [[l0, l1, ..], ...]]
+            | ['rangeindex', start, step, name|None]      # a pd.RangeIndex whose labels are not the positions
+   'slice': [k0, step, tail]   # optional: the frame is built as full.iloc[k0:k0+step*n:step] of a longer
+                               # frame with filler rows (RangeIndex(k0, .., step), sliced geometry buffers);
+                               # 'index' must then be ['rangeindex', k0, step, None]}
 """
 import math
 
@@ -50,6 +54,8 @@ def make_index(ix, n):
         return None
     if ix[0] == 'plain':
         return pd.Index(list(ix[2]), name=ix[1])
+    if ix[0] == 'rangeindex':
+        return pd.RangeIndex(ix[1], ix[1] + ix[2] * n, ix[2], name=ix[3])
     if ix[0] == 'multi':
         tuples = [tuple(t) for t in ix[2]]
         names = list(ix[1])
@@ -61,8 +67,23 @@ def make_index(ix, n):
 
 def build_frame(spec, side):
     from spatialpandas import GeoDataFrame
-    arr = make_geometry(spec)
-    n = len(arr)
+    n = len(spec['elems'])
+    sl = spec.get('slice')
+    if sl:
+        k0, step, tail = sl
+        total = k0 + step * n + tail
+        present = [e for e in spec['elems'] if e is not None]
+        filler = present[0] if present else None
+        elems = [filler] * total
+        posof = [None] * total
+        for i, e in enumerate(spec['elems']):
+            elems[k0 + step * i] = e
+            posof[k0 + step * i] = i
+        arr = G.make_array(spec['kind'], elems, spec.get('subtype', 'float64'))
+    else:
+        total = n
+        posof = list(range(n))
+        arr = make_geometry(spec)
     names = list(spec['cols'])
     order = [spec['id']] + names
     order.insert(min(spec.get('gpos', 0), len(order)), spec['geom'])
@@ -71,20 +92,24 @@ def build_frame(spec, side):
         if c == spec['geom']:
             data[c] = arr
         elif c == spec['id']:
-            data[c] = np.arange(n, dtype='int64')
+            data[c] = np.array([900000 + p if q is None else q for p, q in enumerate(posof)], dtype='int64')
         else:
-            vals = [payload_value(side, c, i) for i in range(n)]
-            if n == 0:
-                proto = payload_value(side, c, 0)
-                dt = 'int64' if isinstance(proto, int) else ('float64' if isinstance(proto, float) else object)
-                data[c] = np.array([], dtype=dt)
-            else:
-                data[c] = vals
+            proto = payload_value(side, c, 0)
+            dt = 'int64' if isinstance(proto, int) else ('float64' if isinstance(proto, float) else object)
+            vals = [payload_value(side, c, 900000 + p if q is None else q) for p, q in enumerate(posof)]
+            data[c] = np.array(vals, dtype=dt) if (total == 0 or dt != object) else vals
     df = GeoDataFrame(data, geometry=spec['geom'])
-    idx = make_index(spec['index'], n)
-    if idx is not None:
-        df.index = idx
-    assert list(df.columns) == order and df.geometry.name == spec['geom'], (list(df.columns), order)
+    if sl:
+        df = df.iloc[k0:k0 + step * n:step]
+        assert spec['index'][0] == 'rangeindex' and spec['index'][1:3] == [k0, step], spec['index']
+        assert isinstance(df.index, pd.RangeIndex) and list(df.index) == [k0 + step * i for i in range(n)]
+    else:
+        idx = make_index(spec['index'], n)
+        if idx is not None:
+            df.index = idx
+    assert len(df) == n and list(df.columns) == order and df.geometry.name == spec['geom'], \
+        (list(df.columns), order, len(df))
+    assert type(df) is GeoDataFrame
     return df, order
 
 
@@ -95,6 +120,8 @@ def index_kind_term(ix):
         return Rec('IxPlain', None)
     if ix[0] == 'plain':
         return Rec('IxPlain', nm(ix[1]))
+    if ix[0] == 'rangeindex':
+        return Rec('IxPlain', nm(ix[3]))
     return Rec('IxMulti', [nm(x) for x in ix[1]])
 
 
@@ -108,6 +135,8 @@ def index_names_of(spec):
         return [None]
     if ix[0] == 'plain':
         return [ix[1]]
+    if ix[0] == 'rangeindex':
+        return [ix[3]]
     return list(ix[1])
 
 
@@ -117,6 +146,8 @@ def index_label(spec, pos):
         return (pos,)
     if ix[0] == 'plain':
         return (ix[2][pos],)
+    if ix[0] == 'rangeindex':
+        return (ix[1] + ix[2] * pos,)
     return tuple(ix[2][pos])
 
 
